@@ -16,7 +16,8 @@ def gen_case(rng):
         for _ in range(rng.randint(1, 3)):
             awkward = Literal(rng.choice(["C:\\dir\\1", "\\g<0>", "a\\", "{$this}", "{?value}", "{?other} {$value}", "$0 {x}"]))
             data.add((rng.choice(iri_nodes), URIRef(rng.choice(S.PREDS)), awkward))
-            lits = lits + [awkward]
+            if awkward not in lits:
+                lits = lits + [awkward]
     shapes = []
     for i in range(rng.randint(1, 3)):
         is_prop = rng.random() < 0.5
